@@ -239,6 +239,14 @@ func leafAt(v reflect.Value, path []string) (reflect.Value, bool) {
 			}
 			v = v.Elem()
 		}
+		if n == elemStep {
+			// the first element of a slice / array of structs
+			if v.Len() == 0 {
+				return reflect.Value{}, false
+			}
+			v = v.Index(0)
+			continue
+		}
 		v = v.FieldByName(n)
 	}
 	for v.Kind() == reflect.Ptr {
@@ -248,6 +256,29 @@ func leafAt(v reflect.Value, path []string) (reflect.Value, bool) {
 		v = v.Elem()
 	}
 	return v, true
+}
+
+// elemStep in a path: into the first element of a slice or array of structs
+// (element structs are not pointerified: a written zero cannot be told from unset)
+const elemStep = "#0"
+
+func inElem(path []string) bool {
+	for _, n := range path {
+		if n == elemStep {
+			return true
+		}
+	}
+	return false
+}
+
+// genLeafFor: values below an element struct are never the zero value
+func genLeafFor(r *coqfmt.Rng, tg target) (reflect.Value, string) {
+	for {
+		v, s := genLeaf(r, tg.leaf)
+		if !inElem(tg.path) || !v.IsZero() {
+			return v, s
+		}
+	}
 }
 
 type slot struct {
@@ -305,11 +336,11 @@ func run(raw json.RawMessage) driver.Result {
 		d := pat % 4
 		pat /= 4
 		if d&1 != 0 {
-			v, s := genLeaf(r, tg.leaf)
+			v, s := genLeafFor(r, tg)
 			slots = append(slots, slot{withAlias(tg, false), v, s})
 		}
 		if d&2 != 0 {
-			v, s := genLeaf(r, tg.leaf)
+			v, s := genLeafFor(r, tg)
 			slots = append(slots, slot{withAlias(tg, true), v, s})
 		}
 		if d == 3 {
@@ -324,7 +355,7 @@ func run(raw json.RawMessage) driver.Result {
 				under = true
 			}
 		}
-		if !under && r.Chance(1, 3) {
+		if !under && !inElem(lp) && r.Chance(1, 3) {
 			v, s := genLeaf(r, g.leafT[i])
 			slots = append(slots, slot{lp, v, s})
 		}
@@ -565,7 +596,7 @@ func run(raw json.RawMessage) driver.Result {
 				}
 			}
 			switch {
-			case d == 0 && set:
+			case d == 0 && set && !(inElem(tg.path) && leaf.IsZero()):
 				direct = append(direct, "neither name given but the field is set: "+strings.Join(tg.path, "."))
 			case d != 0 && !set:
 				direct = append(direct, "a name was given but the field is unset: "+strings.Join(tg.path, "."))
@@ -607,6 +638,19 @@ func setNestedConv(v reflect.Value, path []string, leaf reflect.Value) bool {
 				v.Set(reflect.New(v.Type().Elem()))
 			}
 			v = v.Elem()
+		}
+		if n == elemStep {
+			switch v.Kind() {
+			case reflect.Slice:
+				if v.Len() == 0 {
+					v.Set(reflect.MakeSlice(v.Type(), 1, 1))
+				}
+			case reflect.Array:
+			default:
+				return false
+			}
+			v = v.Index(0)
+			continue
 		}
 		if v.Kind() != reflect.Struct {
 			return false
